@@ -129,6 +129,51 @@ def run_call(entry: str, method: typing.Any, url: typing.Any, headers: typing.An
     return net, err
 
 
+def judge_tunnel(rec: Recorder, url: str, tag: str) -> None:
+    """An https URL requested through a proxy: what is written to the proxy before the tunnel exists must be exactly one
+    well-formed CONNECT request naming one host:port, and what follows inside the tunnel exactly one request."""
+    import warnings
+
+    import urllib3
+
+    case = {"entry": "tunnel", "url": url, "tag": tag}
+    err: BaseException | None = None
+    with netsim.Net(OkServer(), fake_tls="inner") as net, warnings.catch_warnings():
+        warnings.simplefilter("ignore")
+        pm = urllib3.ProxyManager("http://proxy.test:3128", retries=False, cert_reqs="CERT_NONE")
+        try:
+            pm.request("GET", url, headers={"X-Test": "value"}, retries=False, redirect=False)
+        except Exception as e:  # noqa: BLE001
+            err = e
+        finally:
+            pm.clear()
+        written = [bytes(st.sent) for st in net.states if st.sent]
+    rec.mon("call")
+    rec.mon("tunnel_call")
+    if not written:
+        rec.count("rejected_before_any_byte")
+        return
+    raw = written[0]
+    rec.mon("connect_line")
+    try:
+        first = wire.parse_request(raw)
+    except wire.WireError as e:
+        rec.fail(case, "connect-not-one-wellformed-request", {"error": str(e)[:60], "call_raised": type(err).__name__ if err else None}, f"strict parser on the bytes sent to the proxy: {e}; wire={raw[:120]!r}")
+        return
+    if first is None:
+        rec.fail(case, "connect-not-one-wellformed-request", {"error": "incomplete", "call_raised": type(err).__name__ if err else None}, f"incomplete message sent to the proxy: {raw[:120]!r}")
+        return
+    req, rest = first
+    host, _, port = req.target.rpartition(b":")
+    if req.method != b"CONNECT" or not port.isdigit() or not host or any(c <= 0x20 or c == 0x7F for c in host) or any(c <= 0x20 or c == 0x7F for c in b"".join(wire.header_get(req.headers, b"host"))):
+        rec.fail(case, "connect-target-malformed", {"method": req.method, "target": req.target}, f"message to the proxy: {req.method!r} {req.target!r} (Host: {wire.header_get(req.headers, b'host')!r})")
+        return
+    if rest:
+        reqs, residue, perr = wire.parse_all_requests(rest)
+        if perr is not None or len(reqs) > 1 or residue:
+            rec.fail(case, "not-exactly-one-request", {"parsed": len(reqs), "error": (perr or "")[:60], "residue": len(residue), "inside_tunnel": True}, f"inside the tunnel: {len(reqs)} requests, error={perr}, residue={residue[:60]!r}")
+
+
 def run_sequence(entry: str, calls: list[tuple[typing.Any, typing.Any, typing.Any, typing.Any]]) -> tuple[netsim.Net, list[BaseException | None], list[int]]:
     """Several calls on ONE pool / manager; returns the errors and, per call, how many bytes were on the wire afterwards."""
     import urllib3
@@ -458,6 +503,19 @@ def run_shard(ctx: Ctx, rec: Recorder) -> None:
         body = rng.choice([None, None, b"abc", "str", [b"c1", b"c2"], ("array-H", b"xxxGET /smuggled HTTP/1.1\r\nHost: evil.test\r\n\r\n")]) if m not in ("GET", "HEAD") else None
         rec.case(["rand", entry, m, u, header_items(hdrs), repr(body)])
         judge(rec, entry, m, u, hdrs, body, "random")
+    # hostile characters in the host / port of an https URL that is tunnelled through a proxy
+    ti = 0
+    for base in ("https://h.test/p", "https://h.test:8443/p", "https://[::1]:8443/p"):
+        start = len("https://")
+        end = base.index("/", start)
+        for pos in range(start, end + 1):
+            for sym in HOSTILE:
+                ti += 1
+                if not ctx.mine(ti):
+                    continue
+                u = base[:pos] + sym + base[pos:]
+                rec.case(["tunnel-host", u])
+                judge_tunnel(rec, u, "tunnel-host")
     # empty and tiny bodies under caller-requested chunked framing: the terminating chunk must appear exactly once
     if ctx.shard == 0:
         for entry in entries:
@@ -569,6 +627,9 @@ def replay(case: dict[str, typing.Any], ctx: Ctx, rec: Recorder) -> None:
     elif isinstance(body, list) and body and body[0] == "iter":
         body = [b["__bytes__"].encode("latin-1") if isinstance(b, dict) else b for b in body[1:]]
     rec.case(case)
+    if case.get("entry") == "tunnel":
+        judge_tunnel(rec, case["url"], "replay")
+        return
     if "sequence" in case:
         rec.note_inconclusive("sequence cases are replayed by re-running the check (deterministic enumeration)")
         return
